@@ -14,11 +14,10 @@
    (c) D15: detach decides on (store, first, last) only, so it accepts a child that spans the whole
    store of its free-standing parent: C19_reuse_refused_refuted (witness), C19_reuse_refused_partial
    (refusal holds for every donor that does not span its store).
-   C19_refused_step closes step-1 slice assignment and __delitem__ under Layout (RepeatedHistory.step_err).
-   Missing (hence `_partial`): extended-slice assignment and drop_many after their first store write, and the
-   donors' stores on internal (non-Python) failures of _insert_tokens.  Both are covered by the snapshot monitor on the implementation on every run. *)
+   C19_refused_step / C19_history (RepeatedHistory.step_err) close every mutator under Layout, extended slices and
+   drop_many included.  The unconditional `_partial` statements below say what holds without the invariant.  Both are covered by the snapshot monitor on the implementation on every run. *)
 From AB Require Import Prelude PySeq RepeatedLib Repeated Fields RepeatedProofs RepeatedLayout RepeatedInsert RepeatedCells
-  RepeatedSep RepeatedOps RepeatedSlices RepeatedHistory.
+  RepeatedSep RepeatedOps RepeatedSlices RepeatedDrop RepeatedExt RepeatedHistory.
 
 Theorem C19_atomic_optional : forall sd seps s pivot same value fr s' dl e,
   optional_set sd seps s pivot same value fr = (s', dl, Err e) -> s' = s.
@@ -51,7 +50,7 @@ Theorem C19_atomic_setitem_int_partial : forall s index v s' dl e,
   setitem_int s index v = (s', dl, Err e) -> s' = s /\ dl = [v].
 Proof. exact setitem_int_atomic. Qed.
 
-(* under the layout invariant, with fresh arguments, a refused insert / append / extend / xs[i] = v / xs[a:b] = vs (step 1) / del / pop / clear leaves document and items exactly as they were (for slice assignment and del: the refusal happens before the first store write, every later step is proved to succeed) *)
+(* under the layout invariant, with fresh arguments, a refused call of ANY mutator (insert / append / extend / xs[i] = v / xs[a:b:k] = vs for every step / del for every index form / pop / clear / drop_many) leaves document and items exactly as they were: every refusal happens before the first store write and every later step is proved to succeed *)
 Theorem C19_refused_step :
    forall (ph : Z) (seps sepsb : list (kind * str)),
        seps_ok seps ->
@@ -60,8 +59,8 @@ Theorem C19_refused_step :
        LayS ph s -> op_fresh s o -> run_op ph seps sepsb s o = (s', Err e) -> s' = s.
 Proof. exact step_err. Qed.
 
-(* at every point of any history (partial: histories of the eight step-1 mutators; extended slices / drop_many are not in the op language) *)
-Theorem C19_history_partial :
+(* at every point of any history over the full op language *)
+Theorem C19_history :
    forall (ph : Z) (seps sepsb : list (kind * str)),
        seps_ok seps ->
        seps_ok sepsb ->
